@@ -64,10 +64,14 @@ def gen_case(rng, strategies=ALL, max_m=20, max_n=24, integer_ok=True):
     if s == "cubic":
         m = max(m, 2)
     n = rng.randint(2, max_n)
+    if rng.random() < 0.08:
+        n = rng.randint(40, 64)          # the upper end of the documented range of oversampling factors
+        m = min(m, 6)
     integer = integer_ok and rng.random() < 0.2
     x, y = gen_series(rng, m, integer=integer)
     c = {"strategy": s, "n": n, "x": [str(v) for v in x], "y": [str(v) for v in y], "int_x": integer,
-         "objhist": rng.choice(["same", "same", "same", "scribble", "refill", "reenter"])}
+         "objhist": rng.choice(["same", "same", "same", "scribble", "refill", "reenter"]),
+         "call": rng.choice(["keyword", "keyword", "positional"]), "argrep": S.pick_argrep(rng, 0.7)}
     if s in WINDOW:
         if rng.random() < 0.6:
             c["alpha"] = str(Fraction(rng.randint(1, 16), 16))
@@ -77,7 +81,12 @@ def gen_case(rng, strategies=ALL, max_m=20, max_n=24, integer_ok=True):
             c["a"] = rng.randint(0, n)
         if s.startswith("exp"):
             c["beta"] = str(Fraction(rng.randint(0, 8), 8))
-            c["exp"] = rng.choice([1, 2, 2, 3, 0.5, 1.5, 4, 0.25, 0.05])
+            c["exp"] = rng.choice([1, 2, 2, 3, 0.5, 1.5, 4, 0.25, 0.05, 2, 3, 5, 7, 12, 16])     # ints stay Python ints
+            if n >= 40 and rng.random() < 0.7:
+                # wide windows with a steep integer exponent (sample counts to the power of the exponent leave int64)
+                c["alpha"], c["a"] = "1", None
+                c["beta"] = str(Fraction(rng.randint(0, 4), 8))
+                c["exp"] = rng.choice([12, 16, 16, 20])
         if s.endswith("adaptive"):
             c["smooth"] = rng.choice([1, 1, 1, 2, 3, 0.5])
     return c
@@ -112,6 +121,27 @@ def np_x(c):
     return S.arr(floats(x))
 
 
+# the documented constructor signatures of the pinned version (positional order after x, y, n)
+POSITIONAL = {"linfixed": ("alpha", "a"), "linadaptive": ("alpha", "a", "adaptive_smooth"),
+              "expfixed": ("alpha", "beta", "a", "exp"), "expadaptive": ("alpha", "beta", "a", "adaptive_smooth", "exp")}
+DEFAULTS = {"alpha": 1.0, "beta": 0.5, "a": None, "adaptive_smooth": 1.0, "exp": 2.0}
+
+
+def construct(c, xb, yb):
+    """build the strategy object the way the case says: keyword arguments (default) or the documented positional
+    order; the oversampling factor as int or as a NumPy integer (the narrowest type only where the pinned code copes)"""
+    s = c["strategy"]
+    rep = c.get("argrep", "plain")
+    n = S.count(c["n"], {"0d": "alt"}.get(rep, rep), narrow=s in ("pc", "cubic")) if c["n"] >= 2 else c["n"]
+    kw = kwargs_of(c)
+    if c.get("call") == "positional" and s in POSITIONAL:
+        names = POSITIONAL[s]
+        last = max([i for i, k in enumerate(names) if k in kw], default=-1)
+        args = [kw.get(k, DEFAULTS[k]) for k in names[:last + 1]]
+        return cls_of(s)(xb, yb, n, *args)
+    return cls_of(s)(xb, yb, n, **kw)
+
+
 def run_impl(c):
     """returns {'xs','ys','type_x','type_y','ndim','a','a_l','b','aL','aR','bL','bR'} or {'err'}"""
     x, y = series(c)
@@ -127,7 +157,7 @@ def run_impl(c):
             xreal, yreal = xb.copy(), yb.copy()
             xb[...] = S.interior_decoy(xreal)
             yb[...] = S.interior_decoy(yreal)
-        obj = cls_of(s)(xb, yb, n, **kwargs_of(c))
+        obj = construct(c, xb, yb)
         if refill:
             try:
                 obj.rfa()
